@@ -25,6 +25,10 @@ ASSUME = [
 def _compute(tier, seed):
     r = tlc.run('Predictive', 'Predictive_%s.cfg' % tier)
     recs = r.records
+    if tier == 'quick':
+        # three outputs (two times, two samples): the per-output loops and offsets only show beyond two outputs
+        seen = {json.dumps(x, sort_keys=True) for x in recs}
+        recs = recs + [x for x in tlc.run('Predictive', 'Predictive_quick3.cfg').records if json.dumps(x, sort_keys=True) not in seen]
     if tier == 'thorough':
         recs = [x for i, x in enumerate(recs) if len(x['times']) < 4 or i % 4 == seed % 4]
     from . import replay_predictive, validate_traces
